@@ -183,6 +183,10 @@ class SimLoop(base_events.BaseEventLoop):
         task.add_done_callback(self._main_done)
         self.quiescent = False
         self.run_forever()
+        if task.done() and not task.cancelled():
+            ex = task.exception()
+            if isinstance(ex, (SimBudgetExceeded, SimAbort)):
+                raise ex
         return task
 
     def _main_done(self, task):
